@@ -53,6 +53,7 @@ func (q *WriteDedupQueue) HasChunk(id ChunkID) (bool, error) {
 func (q *WriteDedupQueue) StoreChunk(chunk *Chunk) error {
 	id := chunk.ID()
 	req, isInFlight := q.storeChunkQueue.loadOrStore(id)
+	verifYield("wdedup.store.loaded")
 
 	if isInFlight { // The request is already in-flight, wait for it to come back
 		_, err := req.wait()
@@ -65,6 +66,7 @@ func (q *WriteDedupQueue) StoreChunk(chunk *Chunk) error {
 	// Signal to any others that wait for us that we're done, they'll use our data
 	// and don't need to hit the store themselves
 	req.markDone(chunk, err)
+	verifYield("wdedup.store.marked")
 
 	// We're done, drop the request from the queue to avoid keeping all the chunk data
 	// in memory after the request is done
